@@ -118,6 +118,7 @@ func wSetup(o wOpts) *wWorld {
 	} else {
 		wNamespaces = o.xlate
 		cfg.RunnerFunc = func(l hclog.Logger, cmd *exec.Cmd, tmp string) (runner.Runner, error) {
+			wSharedDir = tmp
 			for _, kv := range cmd.Env {
 				k, v, _ := wCut(kv)
 				if vIsConcrete(k) {
@@ -771,7 +772,16 @@ func harnessC04world() {
 	twice := vChoice(2) == 1
 	// optionally a second Kill from another goroutine, at a symbolic instant while the first may still be in progress
 	overlap := make(chan struct{})
-	if vChoice(2) == 1 {
+	lat := int64(0)
+	if behaviour <= 1 && vChoice(2) == 1 {
+		// the shutdown request takes a while to reach the plugin (a busy plugin, a slow link): the grace period is
+		// counted from the moment the request was delivered, not from the moment Kill was called
+		vCover("slow-shutdown-request")
+		lat = vNondetTime("killLatency")
+		vAssume(lat >= 1 && lat <= sec)
+		wNetDelay = lat
+		close(overlap)
+	} else if vChoice(2) == 1 {
 		vCover("overlapping-kill")
 		t2 := vNondetTime("t2")
 		vAssume(t2 >= 10*sec && t2 <= 16*sec)
@@ -790,7 +800,7 @@ func harnessC04world() {
 	vAssert(!r.panicked, "C04: Kill does not panic")
 	vAssert(p.isDead, "C04: after Kill the plugin process has exited")
 	vAssert(c.Exited(), "C04: after Kill the client reports the plugin as exited")
-	bound := 5 * sec // shutdown-request deadline 2 s + grace period 2 s + slack
+	bound := 5*sec + 2*lat // shutdown-request deadline 2 s + grace period 2 s + slack
 	if behaviour == 3 && !o.grpc {
 		bound = 43 * sec // net/rpc has no deadline of its own: bounded by yamux's keep-alive
 	}
@@ -962,7 +972,17 @@ func harnessC18world() {
 	}
 	o.allowed = 1
 	o.cmd = vChoice(2) == 1
+	if !o.cmd && o.grpc && !o.mux && vChoice(2) == 1 {
+		// a runner whose plugin lives in another file-system namespace (a container): only the socket directory the
+		// runner was given is shared, and addresses are translated by the runner
+		o.xlate = true
+		vCover("other-namespace")
+	}
 	w := wSetup(o)
+	if o.xlate && vChoice(2) == 1 {
+		w.c.config.UnixSocketConfig = &UnixSocketConfig{} // given, with nothing set
+		vCover("unix-socket-config")
+	}
 	c, p := w.c, w.p
 	cp, err := c.Client()
 	vAssume(err == nil)
@@ -998,7 +1018,11 @@ func harnessC18world() {
 				cc.Close()
 				done <- t
 			}()
-			vAssert(<-done == 100, "C18: a brokered callback from the plugin reaches the host's server")
+			lbl := "C18: a brokered callback from the plugin reaches the host's server"
+			if vParam("as") == 7 {
+				lbl = "C07: a connection the plugin dials for ID n reaches the server the host accepted on ID n (composed; custom runner, possibly another namespace)"
+			}
+			vAssert(<-done == 100, lbl)
 		}
 		if nsrv := vChoice(4); nsrv > 0 { // the plugin serves one or two brokered servers, the host dials
 			vCover("plugin-serves")
@@ -1334,6 +1358,52 @@ func harnessC05killAfter() {
 	vDone()
 }
 
+// harnessC10exitTail: a plugin launched through exec.Cmd writes a burst of stderr lines (a panic trace, say) and exits;
+// the host's Stderr sink is slow. Everything the plugin wrote reaches the sink, in order: the process is reaped
+// (exec.Cmd.Wait closes the pipes) only after the copy has finished.
+type wSlowWriter struct {
+	chunks []string
+	delay  int64
+}
+
+func (w *wSlowWriter) Write(p []byte) (int, error) {
+	vSleepUntil(vNow() + w.delay)
+	w.chunks = append(w.chunks, string(p))
+	return len(p), nil
+}
+
+func harnessC10exitTail() {
+	var o wOpts
+	o.allowed = 1
+	o.cmd = true
+	o.oldLine = 3 // a scripted net/rpc plugin: five-field line
+	w := wSetup(o)
+	l1, l2, l3 := "panic: boom", "goroutine 1 [running]:", "main.main()" // what a crashing plugin leaves on its stderr
+	w.p.main = func() {
+		mPrintf("%s\n", "1|1|unix|/tmp/old-plugin|netrpc")
+		vSleepUntil(sec)
+		w.p.stderr.write(l1) // one pipe item = one line (ReadLine strips the terminator)
+		w.p.stderr.write(l2)
+		w.p.stderr.write(l3)
+	} // returning is exit(0)
+	sink := &wSlowWriter{delay: sec / 2}
+	w.c.config.Stderr = sink
+	_, err := w.c.Start()
+	vAssume(err == nil)
+	vSleepUntil(20 * sec)
+	vAssert(w.c.Exited(), "C03: the host notices that the plugin exited")
+	var lines []string
+	for _, ch := range sink.chunks {
+		if ch != "\n" {
+			lines = append(lines, ch)
+		}
+	}
+	vAssert(len(lines) == 3 && lines[0] == l1 && lines[1] == l2 && lines[2] == l3, "C10: every stderr line written before the plugin exited is copied to the stderr writer, in order (the process is not reaped while the copy is still going on)")
+	vCover("tail-copied")
+	w.c.Kill()
+	vDone()
+}
+
 // ---------------------------------------------------------------------------------------------- C11: synced stdio, composed
 type wRecWriter struct{ chunks []string }
 
@@ -1485,6 +1555,8 @@ func harnessSharedConfig() {
 	for i := 0; i < 2; i++ {
 		c := NewClient(cfg)
 		_, err := c.Start()
+		offered, _ := wEffective(envs[i], "PLUGIN_PROTOCOL_VERSIONS")
+		vAssert(offered == "1,2" || offered == "2,1", "C17: exactly the offered protocol versions are passed - the legacy pair's version and the versioned sets' - on every launch")
 		vAssert(err == nil, "C02: a launch whose version sets intersect starts (one ClientConfig, launch after launch)")
 		vAssert(c.NegotiatedVersion() == i+1, "C02: the client reports the common version as negotiated (one ClientConfig, launch after launch)")
 		vAssert(cfg.Plugins["test"] == Plugin(want[i]), "C02: the host uses the plugin set registered under the negotiated version, also when an earlier launch from the same ClientConfig negotiated another version")
@@ -1719,5 +1791,20 @@ func harnessC16world() {
 		}
 	}
 	vAssert(found, "C16: the announced address is already accepting connections when the line appears")
+	// the plugin PROGRAM now prints to its os.Stdout and os.Stderr (go-plugin has redirected both): none of that may
+	// appear on the real stdout, which carries the handshake line and nothing else
+	func() {
+		done := make(chan struct{})
+		go func() {
+			vSetProc(p.id)
+			wPluginWrite(false, "output of the plugin program\n")
+			wPluginWrite(true, "diagnostics of the plugin program\n")
+			close(done)
+		}()
+		<-done
+	}()
+	vSleepUntil(vNow() + 2*sec)
+	vAssert(len(wStdoutLines) == 1, "C16: go-plugin writes nothing but the handshake line to the plugin's real stdout (what the program prints later is not copied there)")
+	vCover("program-output-after-handshake")
 	vDone()
 }
